@@ -29,7 +29,21 @@ def gen_control_case(rng, tier, fresh):
             "target_mode": rng.choice(["trap", "trap", "space"]), "target_pick": rng.randrange(1 << 20),
             "strategy": rng.choice(["internal", "all"]), "bound": rng.choice([None, None, 0, 1, 2, 3]),
             "forbidden": [rng.randrange(64) for _ in range(rng.choice([0, 0, 1, 2]))],
-            "skip_ff": rng.random() < 0.25, "successful_only": rng.random() < 0.5}
+            "skip_ff": rng.random() < 0.25, "successful_only": rng.random() < 0.5,
+            "pre_query": rng.random() < 0.3}
+
+
+def pre_query(case, sd, ni, target):
+    """an earlier control query on the same diagram, for the same variables with the opposite values"""
+    from biobalm.control import succession_control
+
+    if not case.get("pre_query"):
+        return
+    flipped = {k: 1 - v for k, v in target.items()}
+    try:
+        succession_control(sd, flipped, strategy=case["strategy"])
+    except RuntimeError:
+        pass
 
 
 def pick_target(case, ni, traps):
